@@ -329,7 +329,9 @@ def load(modname: str, qualname: str, *, stubs: dict[str, Any] | None = None,
     ns['__vc_join__'] = vc_join
     ns['__vc_STOP__'] = _STOP
     ns['__vc_sync__'] = _sync
-    lp = _LoopRuntime(loops or {})
+    known = {n.id for n in ast.walk(node) if isinstance(n, ast.Name)} | {a.arg for a in ast.walk(node) if isinstance(a, ast.arg)} \
+        | {h.name for h in ast.walk(node) if isinstance(h, ast.ExceptHandler) and h.name}
+    lp = _LoopRuntime(loops or {}, known)
     ns['__vc_loop_head__'] = lp.head
     ns['__vc_loop_back__'] = lp.back
     ns['__vc_loop_next__'] = lp.next
@@ -621,14 +623,41 @@ def _hid(eng):
     return f'{h}.' if h else ''
 
 
+class _Locals(dict):
+    """The locals of the verified function as a loop contract sees them.  A contract names program variables (as
+    loop invariants do in every deductive verifier); if the function no longer HAS a variable of that name (renamed,
+    inlined), the contract cannot be evaluated: that is *undecided* (Unsupported), never a violation.  A variable the
+    function has but that is unbound at this point reads as absent (`.get` -> default), as before."""
+    def __init__(self, loc, known):
+        super().__init__(loc)
+        self._known = known
+
+    def _check(self, name):
+        if self._known is not None and isinstance(name, str) and name not in self._known and not dict.__contains__(self, name):
+            raise Unsupported(f"loop contract refers to the local variable '{name}', which the function does not have (renamed or restructured?)")
+
+    def get(self, name, default=None):
+        self._check(name)
+        return dict.get(self, name, default)
+
+    def __getitem__(self, name):
+        self._check(name)
+        return dict.__getitem__(self, name)
+
+    def __contains__(self, name):
+        self._check(name)
+        return dict.__contains__(self, name)
+
+
 class _LoopRuntime:
-    def __init__(self, loops: dict[int, LoopSpec]):
+    def __init__(self, loops: dict[int, LoopSpec], known: set | None = None):
         self.loops = loops
+        self.known = known
 
     def head(self, k, loc):
         spec = self.loops[k]
         eng = E()
-        loc = dict(loc)
+        loc = _Locals(loc, self.known)
         if spec.at_entry is not None:
             spec.at_entry(loc)
         eng.ensure(f'{_hid(eng)}loop[{spec.name}].invariant@entry', spec.invariant(loc))
@@ -651,7 +680,7 @@ class _LoopRuntime:
     def back(self, k, loc):
         spec = self.loops[k]
         eng = E()
-        loc = dict(loc)
+        loc = _Locals(loc, self.known)
         if spec.at_backedge is not None:
             spec.at_backedge(loc)
         eng.ensure(f'{_hid(eng)}loop[{spec.name}].invariant@backedge', spec.invariant(loc))
@@ -667,7 +696,7 @@ class _LoopRuntime:
         spec = self.loops[k]
         if spec.element is None:
             raise Unsupported(f'loop contract {spec.name} has no element() for a for-loop')
-        r = spec.element(dict(loc), iterable)
+        r = spec.element(_Locals(loc, self.known), iterable)
         if hasattr(r, '__await__'):
             r = await r
         return r
@@ -676,12 +705,12 @@ class _LoopRuntime:
         spec = self.loops[k]
         if spec.element is None:
             raise Unsupported(f'loop contract {spec.name} has no element() for a for-loop')
-        return spec.element(dict(loc), iterable)
+        return spec.element(_Locals(loc, self.known), iterable)
 
     def exit(self, k, loc):
         spec = self.loops[k]
         if spec.on_exit is not None:
-            spec.on_exit(dict(loc))
+            spec.on_exit(_Locals(loc, self.known))
 
 
 # ------------------------------------------------------------------------------------ coroutine driver
